@@ -38,6 +38,9 @@ def seeded_table():
             verdict = "not applicable any more: " + res["superseded"]
         else:
             verdict = "missed (exit 0)"
+            caught = [f"{o}: {a.get('detected_as')}" for o, a in (res.get("also") or {}).items() if a.get("check_rc") == 1]
+            if caught:
+                verdict = "missed by this property's check (exit 0); VIOLATION from " + "; ".join(caught)
         rows.append(f"| {d.parent.name} | {meta.get('property')} | {str(meta.get('summary', ''))[:260].replace('|', '/')} | "
                     f"{str(meta.get('needs', ''))[:200].replace('|', '/')} | {verdict} | {res.get('detected_as') or ''} |")
     return "\n".join(rows)
